@@ -100,6 +100,18 @@ def run(tier: str, seed: int) -> int:
         replay_states(run_, res, ex, jnp, jax, half=half)
         tlc.cleanup(res)
     check_random_dense(run_, ex, jnp, rng)
+    # the arithmetic lemmas behind the dealiasing design for EVERY N >= 3 (Apalache, unbounded integers); plus a deliberately false lemma
+    # that must be refuted (the proof obligation is not vacuous)
+    proved = {}
+    for inv in ("AliasFreeAllN", "NyquistFreeAllN", "MonotoneAllN", "TightAllN"):
+        ok, wall, tail = tlc.run_apalache("Lemmas_apa", inv)
+        proved[inv] = ok
+        if not ok:
+            run_.violation({"kind": "spec", "invariant": inv, "what": "all-N lemma refuted"}, {"apalache": tail})
+    ok, wall, tail = tlc.run_apalache("Lemmas_apa", "FalseLemma")
+    if ok:
+        raise RuntimeError("Apalache accepted a false lemma: the all-N obligations are vacuous")
+    run_.extra["all_N_lemmas_apalache"] = proved
     tlc.cleanup_mine()
     run_.rule = ("one case per terminal TLC state: (term, D, N, sum of <= degree real basis functions incl. channel assignment, cos/sin, modes inside "
                  "the band, one shell outside and Nyquist); distinct_nontrivial counts distinct (term, D, N) tables plus dense-state cases; by "
